@@ -164,6 +164,51 @@ fn dump_frame<R: Reader<Offset = usize>>(main: R, asz: u8) -> gimli::Result<Vec<
     Ok(d)
 }
 
+fn eh_bases() -> BaseAddresses {
+    BaseAddresses::default().set_eh_frame(0x1000).set_eh_frame_hdr(0x2000)
+}
+
+fn dump_eh_frame<R: Reader<Offset = usize>>(main: R, asz: u8) -> gimli::Result<Vec<Value>> {
+    let mut d = Vec::new();
+    let mut ef = gimli::EhFrame::from(main);
+    ef.set_address_size(asz);
+    let bases = eh_bases();
+    let mut entries = ef.entries(&bases);
+    while let Some(e) = entries.next()? {
+        match e {
+            gimli::CieOrFde::Cie(c) => {
+                d.push(json!(["cie", c.offset(), c.version(), format!("{:?}", c.personality()),
+                              format!("{:?}", c.lsda_encoding()), format!("{:?}", c.fde_address_encoding())]));
+            }
+            gimli::CieOrFde::Fde(p) => {
+                let fde = p.parse(gimli::EhFrame::cie_from_offset)?;
+                let mut ins = Vec::new();
+                let mut it = fde.instructions(&ef, &bases);
+                while let Some(i) = it.next()? {
+                    ins.push(format!("{:?}", i));
+                }
+                d.push(json!(["fde", fde.offset(), fde.cie().offset(), bv(fde.initial_address(), 8), bv(fde.len(), 8),
+                              format!("{:?}", fde.lsda()), format!("{:?}", fde.personality()), ins]));
+            }
+        }
+    }
+    Ok(d)
+}
+
+fn dump_eh_hdr<R: Reader<Offset = usize>>(main: R, asz: u8) -> gimli::Result<Vec<Value>> {
+    let mut d = Vec::new();
+    let bases = eh_bases();
+    let hdr = gimli::EhFrameHdr::from(main).parse(&bases, asz)?;
+    d.push(json!(["eh_frame_ptr", format!("{:?}", hdr.eh_frame_ptr())]));
+    if let Some(t) = hdr.table() {
+        let mut it = t.iter(&bases);
+        while let Some((a, b)) = it.next()? {
+            d.push(json!(["entry", format!("{:?}", a), format!("{:?}", b)]));
+        }
+    }
+    Ok(d)
+}
+
 fn run_dump<R: Reader<Offset = usize>>(kind: &str, ver: u16, asz: u8, main: R, aux: &dyn Fn(&str) -> R) -> Value {
     let r = match kind {
         "unit" | "unit64" | "expr" => dump_unit(main, aux("abbrev")),
@@ -171,6 +216,8 @@ fn run_dump<R: Reader<Offset = usize>>(kind: &str, ver: u16, asz: u8, main: R, a
         "ranges" => dump_ranges(main, aux("none"), ver, asz),
         "rnglists" => dump_ranges(aux("none"), main, ver, asz),
         "frame" => dump_frame(main, asz),
+        "ehframe" => dump_eh_frame(main, asz),
+        "ehhdr" => dump_eh_hdr(main, asz),
         _ => Ok(vec![json!("bad-kind")]),
     };
     match r {
